@@ -578,6 +578,29 @@ theorem C08_ba_set_wrote (fb M : Nat) (c : Cur) (widths : List Nat) (k v : Nat)
   rw [← hp]
   exact C08_dset_wrote fb M _ _ _ v (by omega) hv (by omega)
 
+/-- the same for ANY carrier -- in particular a TIGHT user-chosen bit field exactly as wide as the pixel -- at every
+    position where the channel, at its own normalised first bit, fits the bit field -/
+theorem C08_ba_set_wrote_tight (fb M : Nat) (c : Cur) (widths : List Nat) (k v : Nat)
+    (hb : 0 ≤ c.byte) (h0 : 0 ≤ c.off) (h7 : c.off < 8) (hk : k < widths.length)
+    (hfit : (baChan c widths k).off.toNat + width widths k ≤ 8 * fb)
+    (hw : width widths k ≤ 64) (hv : v < 2 ^ width widths k) :
+    WroteExactly M (baSet fb M c widths k v) (c.pos.toNat + sumK widths k) (width widths k) v
+    ∧ baGet fb (baSet fb M c widths k v) c widths k = v := by
+  obtain ⟨hp, ho⟩ := chan_pos c widths k hb h0 h7
+  have hwrote : WroteExactly M (baSet fb M c widths k v) (c.pos.toNat + sumK widths k) (width widths k) v := by
+    unfold baSet
+    simp only []
+    rw [← hp]
+    exact C08_dset_wrote fb M _ _ _ v hfit hv (by omega)
+  refine ⟨hwrote, ?_⟩
+  have hget : ∀ M', baGet fb M' c widths k = bitsAt M' (c.pos.toNat + sumK widths k) (width widths k) := by
+    intro M'
+    unfold baGet
+    simp only []
+    rw [← hp]
+    exact C08_dget fb M' _ _ _ hfit hw (by omega)
+  rw [hget]; exact C08_wrote_readback _ _ _ _ _ hwrote hv
+
 theorem C08_ba_get (fb M : Nat) (c : Cur) (widths : List Nat) (k : Nat)
     (hb : 0 ≤ c.byte) (h0 : 0 ≤ c.off) (h7 : c.off < 8) (hk : k < widths.length)
     (hfield : bitSize widths + 7 ≤ 8 * fb) (hw : width widths k ≤ 64) :
@@ -942,6 +965,9 @@ example : RefOK 2 ⟨0, 6⟩ [2, 2, 2] ∧ RefOK 2 ⟨1, 4⟩ [2, 2, 2]
       unfold width; rcases k with _ | _ | _ | _ | k <;> simp [List.getD]⟩,
    ⟨by decide, by decide, by decide, by decide, fun k => by
       unfold width; rcases k with _ | _ | _ | _ | k <;> simp [List.getD]⟩, by decide⟩
+-- tight carrier: rgba 2-2-2-2 in a uint8_t at bit offset 2: channel 3 sits in the next byte at first bit 0 and fits
+example : (baChan ⟨0, 2⟩ [2, 2, 2, 2] 3 = ⟨1, 0⟩) ∧ (baChan ⟨0, 2⟩ [2, 2, 2, 2] 3).off.toNat + width [2, 2, 2, 2] 3 ≤ 8 * 1
+    ∧ baSet 1 0 ⟨0, 2⟩ [2, 2, 2, 2] 3 3 = 0x300 := by decide
 example : baSwap 2 0x123E41 ⟨0, 6⟩ ⟨1, 4⟩ [2, 2, 2] [0, 1, 2] = 0x1398C1 := by decide
 
 end GilVerif.Props.C08
